@@ -112,6 +112,7 @@ impl std::error::Error for StrErr {}
 
 thread_local! {
     static LAST_PANIC: RefCell<String> = const { RefCell::new(String::new()) };
+    static GUARD_DEPTH: std::cell::Cell<u32> = const { std::cell::Cell::new(0) };
 }
 
 pub fn install_panic_hook() {
@@ -131,6 +132,10 @@ pub fn install_panic_hook() {
                 format!("{}:{}", f, l.line())
             })
             .unwrap_or_default();
+        if GUARD_DEPTH.with(|d| d.get()) == 0 {
+            // not inside a guarded library call: a bug of the harness itself
+            println!("[dsiverif] HARNESS PANIC (inconclusive, not a violation): {} @ {}", msg, loc);
+        }
         LAST_PANIC.with(|p| *p.borrow_mut() = format!("{} @ {}", msg, loc));
     }));
 }
@@ -196,7 +201,10 @@ pub fn panic_kind(p: &str) -> String {
 }
 
 pub fn guard<T>(f: impl FnOnce() -> R<T>) -> Out<T> {
-    match catch_unwind(AssertUnwindSafe(f)) {
+    GUARD_DEPTH.with(|d| d.set(d.get() + 1));
+    let r = catch_unwind(AssertUnwindSafe(f));
+    GUARD_DEPTH.with(|d| d.set(d.get() - 1));
+    match r {
         Ok(Ok(v)) => Out::Ok(v),
         Ok(Err(e)) => Out::Err(e),
         Err(_) => Out::Panic(LAST_PANIC.with(|p| p.borrow().clone())),
